@@ -473,7 +473,9 @@ impl<'a> Printer<'a> {
             })
             .collect();
         format!(
-            "{}{} {}{}({})",
+            "{}{}{} {}{}({})",
+            // a function named bk1_* lives in bank 1 (calls from bank 0 go through a Call<name> stub)
+            if f.name.starts_with("bk1_") { "bank1 " } else { "" },
             if f.inline { "inline " } else { "" },
             ret,
             if f.interrupt { "interrupt " } else { "" },
@@ -1073,7 +1075,7 @@ impl<'a> Interp<'a> {
 
     fn exec(&mut self, s: &Stmt) -> Result<Flow, Abort> {
         self.tick()?;
-        if !matches!(s, Stmt::Load(_) | Stmt::Store(_)) {
+        if !matches!(s, Stmt::Load(_) | Stmt::Store(_) | Stmt::CSleep(_)) {
             self.acc = None;
         }
         match s {
